@@ -164,19 +164,18 @@ func matchCompTimeRange(start, end time.Time, comp *ical.Component) (bool, error
 		return false, err
 	}
 
-	// Event starts in time range
-	if eventStart.After(start) && (end.IsZero() || eventStart.Before(end)) {
-		return true, nil
+	// RFC 4791 section 9.9, conditions for VEVENT: in every row the range
+	// must end after DTSTART...
+	if !end.IsZero() && !eventStart.Before(end) {
+		return false, nil
 	}
-	// Event ends in time range
-	if eventEnd.After(start) && (end.IsZero() || eventEnd.Before(end)) {
-		return true, nil
+	// ... and start before DTEND, DTSTART+DURATION (a positive duration) or
+	// DTSTART+P1D (an all-day start without end),
+	if eventEnd.After(eventStart) || event.Props.Get(ical.PropDateTimeEnd) != nil {
+		return start.Before(eventEnd), nil
 	}
-	// Event covers entire time range plus some
-	if eventStart.Before(start) && (!end.IsZero() && eventEnd.After(end)) {
-		return true, nil
-	}
-	return false, nil
+	// or, for an event without extent, not after DTSTART.
+	return !start.After(eventStart), nil
 }
 
 func matchPropTimeRange(start, end time.Time, field *ical.Prop) (bool, error) {
